@@ -35,4 +35,6 @@ def all_units():
         units_bn_api.register(add)
         import units_conv
         units_conv.register(add)
+        import units_rand
+        units_rand.register(add)
     return list(_units)
